@@ -21,7 +21,7 @@ import glob
 import os
 import traceback
 
-from ..report import ROOT, Run
+from ..report import OUT as ROOT, Run
 
 FIT_DEFAULT = dict(epochs=1, n_train=1, bs=2, val=None, ev=None, cb_train=False, cb_val=False, rem=0, val_raises=False)
 
